@@ -103,7 +103,7 @@ def workloads(ctx):
                     heap=c.get("heap", "8M"), threads=int(c.get("threads", "1")))
         if c.get("minimised"):
             # minimised past failure: one tiny workload, every kind of cell
-            wl.append(dict(base, name=base["prog"], args=[], scale="one", focus=c.get("focus")))
+            wl.append(dict(base, name=base["prog"], args=[], scale="one", focus=c.get("focus"), minimised=True))
             continue
         wl.append(dict(base, name=base["prog"] + "@small", args=[c.get("small", "3")], scale="small"))
         wl.append(dict(base, name=base["prog"] + "@big", args=[c.get("big", "1000")], scale="big"))
@@ -187,11 +187,11 @@ def src_sha(path):
 def cache_dir(tc):
     d = os.path.join(BINCACHE, tc["hash"])
     if not os.path.isdir(d):
-        # executables of other tree states are useless now (7 MB each): drop all but the two most recent dirs
+        # executables of other tree states are useless now (7 MB each): keep the most recent one and anything a concurrent run may still use
         if os.path.isdir(BINCACHE):
             others = sorted(os.listdir(BINCACHE), key=lambda o: os.path.getmtime(os.path.join(BINCACHE, o)), reverse=True)
-            for o in others[2:]:
-                if time.time() - os.path.getmtime(os.path.join(BINCACHE, o)) > 7200:
+            for o in others[1:]:
+                if time.time() - os.path.getmtime(os.path.join(BINCACHE, o)) > 1800:
                     shutil.rmtree(os.path.join(BINCACHE, o), ignore_errors=True)
         os.makedirs(d, exist_ok=True)
     os.utime(d, None)
@@ -700,14 +700,16 @@ def run_matrix(ctx, tc, stats):
 def report_failures(ctx, tc, stats):
     """Report each kind of failure once, with the list of failing cells and a minimised program."""
     for key, fl in sorted(stats["failures"].items()):
-        fl.sort(key=lambda f: os.path.getsize(f["w"]["path"]))
+        # a committed minimised program that shows this failure is the replay; otherwise the smallest failing program
+        fl.sort(key=lambda f: (0 if f["w"].get("minimised") else 1, os.path.getsize(f["w"]["path"])))
         f0 = fl[0]
         w, c = f0["w"], f0["cell"]
         flags = cell_flags(c, w)
         src = open(w["path"], encoding="utf-8").read()
         known = any(k == key for k, _ in ctx.known)
         mini, tests = (src, 0)
-        if not known and key.startswith(("oracle:abort", "oracle:signal", "oracle:gc-verify")) and not os.environ.get("VERIF_C03_NOMIN"):
+        if (not known and not w.get("minimised") and key.startswith(("oracle:abort", "oracle:signal", "oracle:gc-verify"))
+                and not os.environ.get("VERIF_C03_NOMIN")):
             try:
                 mini, tests = minimise(tc, src, w["args"], c, flags, key, w)
             except Exception as e:     # the minimiser is a convenience
